@@ -9,6 +9,7 @@ ENGINES = {
     "C19": ("props.c19", "run"),
     "C06": ("props.c06", "run"),
     "C04": ("props.c04", "run"),
+    "C16": ("props.c16", "run"),
 }
 
 
